@@ -16,8 +16,8 @@ CLAIMED = {
  "C14": dict(text="&,|,^ and <<,>> of all 20 integer/Word types are under contract. Native widths: &,|,^ proved exactly in the bit-vector encoding, shifts proved against x*2^n truncated / floor(x/2^n) in the Int encoding for every shift amount; negative amounts fail. 128/256-bit types: shifts proved against the same mathematical spec through the two's-complement helpers, &,|,^ proved to be math/big's two's-complement operation with the result in range; Int/UInt: exact shl/shr, Overflow only for amounts not fitting 64 bits. Two genuine defects were found by these obligations, replayed, and repaired (fix: commits); reverting either fix re-raises the violation.",
              note="Trusted: math/big And/Or/Xor/Lsh/Rsh/SetBytes/FillBytes/Bytes semantics (assumed contracts, conformance-tested), the byte helpers values.SignedBigIntToSizedBigEndianBytes / BigEndianBytesToSignedBigInt and interpreter.truncate (assumed contracts on repository code: their bodies loop over bytes/words), modular-arithmetic lemma instances L_modmul/L_mulsign (products treated as uninterpreted in the 128/256-bit left-shift proofs), bounds on the uninterpreted 2^n for wide exponents.",
              technique="deductive: contracts + VC generator over go/ssa (bit-vector and Int encodings), SMT, counterexample refinement + replay", ref="6 (C14)"),
- "C35": dict(text="PARTIAL (encoding half; so far LEB128): Append{Uint,Int}{32,64}, AppendUint32FixedLength and Read{Uint,Int}{32,64} are proved for all values: the encoder emits exactly the byte-by-byte LEB128 encoding of canonical length after the unchanged prefix, and the decoder returns (v, n, nil) whenever its input starts with the n-byte encoding of v (ghost v); a decoder's precondition is literally the encoder's postcondition, so the round trip with the reported length holds for every integer. Loops are completely unrolled (5/10 iterations) with the unwinding assertion proved. Compile determinism ('same program twice yields identical bytecode') is a two-run property of the whole compiler and is not covered.",
-             note="Bit-vector encoding (exact). append() modelled as copying. Instruction (opcode) codec not yet under contract.", technique="deductive: contracts with ghost variables + complete loop unrolling + VC generator over go/ssa (bit-vector encoding), SMT", ref="6 (C35)"),
+ "C35": dict(text="PARTIAL (encoding half). LEB128: Append{Uint,Int}{32,64}, AppendUint32FixedLength and Read{Uint,Int}{32,64} are proved for all values: the encoder emits exactly the byte-by-byte LEB128 encoding of canonical length after the unchanged prefix, and the decoder returns (v, n, nil) whenever its input starts with the n-byte encoding of v (ghost v); a decoder's precondition is literally the encoder's postcondition, so the round trip with the reported length holds for every integer (loops completely unrolled, unwinding assertion proved). Instruction codec: for every instruction type found in bbq/opcode on the day of the run (82), a generated loop-free harness proves DecodeInstruction(&ip, prefix ++ Encode(i)) == i with ip advanced by exactly the encoded length, for all operand values and every start offset <= 60000; the harnesses execute the real Encode/Decode*/emit*/decode* code inline and are regenerated from the sources on every run. Array operands (4 fields) only as bounded stand-ins (length <= 2), not counted. Compile determinism is a two-run property of the whole compiler and is not covered.",
+             note="Bit-vector encoding (exact). append() modelled as copying. ip is a uint16: offsets beyond 60000 are outside the precondition. The harness functions exist only in the verifier's build overlay (tag verif).", technique="deductive: contracts with ghost variables, complete loop unrolling, generated loop-free harnesses over the real codec functions; VC generator over go/ssa (bit-vector encoding), SMT", ref="6 (C35)"),
  "C46": dict(text="rlp.ReadSize and rlp.DecodeString are proved, for every input byte string and start index >= 0, to succeed exactly on the canonical encodings defined by spec functions written from the RLP definition and to return the payload slice and consumed length; rlp.DecodeList is proved free of run-time panics (loop invariant) with its consumed length equal to header plus payload; the Cadence wrappers are proved to fail only with their user error type or a metering error. Every index, slice and make site is a discharged safety obligation. Two genuine crashes were found, replayed and repaired.",
              note="Bit-vector encoding (exact machine arithmetic). Trusted: atree-backed conversions ByteArrayValueToByteSlice/ByteSliceToByteArrayValue/NewArrayValueWithIterator (assumed, the iterator closure is not executed), err.Error(). DecodeList's postcondition does not describe the item contents (slices of slices are tracked by identity only) nor that err==nil iff the payload is a sequence of canonical items (needs a recursive predicate; not expressed).",
              technique="deductive: contracts + loop invariant + VC generator over go/ssa (bit-vector encoding), SMT, small-counterexample search + replay", ref="6 (C46)"),
